@@ -302,10 +302,21 @@ def r2(ctx):
     commit_last(ctx)
 
 
+def _more(name):
+    def run(ctx):
+        from . import more
+
+        getattr(more, name)(ctx)
+
+    run.__name__ = name
+    return run
+
+
 RULES = [
     ("C18.R1", "P1", r1, "publish last"),
     ("C18.R2", "P1", r2, "commit last"),
     ("C18.R4", "P1", r4_flag_never_unset, "the built flag is never lowered while the entry point is live"),
     ("C18.R5", "P1", r5_no_swallowed_exceptions, "resolution code swallows no unexpected exception"),
     ("C18.R3", "P1", r3_rewriter_globals_last, "rewriter touches shared globals last"),
+    ("C18.R6", "P1", _more("own_rebuild_before_dependents"), "own rebuild before dependents"),
 ]
